@@ -954,7 +954,7 @@ impl Reader {
                 &missing_seqnums
                   .iter()
                   .copied()
-                  .take_while(|sn| sn < &(first_missing + SequenceNumber::new(256)))
+                  .take_while(|sn| i64::from(*sn) - i64::from(first_missing) < 256)
                   .filter(|sn| {
                     if this.is_frag_partially_received(writer_guid, *sn) {
                       partially_received.push(*sn);
